@@ -121,6 +121,12 @@ func (h *HeaderHashes) init(dao *dao.Simple, trusted config.HashIndex) error {
 			}
 			headers = append(headers, blk.Hash())
 			hash = blk.PrevHash
+			if blk.Index == 1 && targetHash.Equals(util.Uint256{}) {
+				// Genesis block may be removed by the state jump, its hash is
+				// all we need from it.
+				headers = append(headers, hash)
+				break
+			}
 		}
 		slices.Reverse(headers)
 		if padLeft {
